@@ -41,14 +41,9 @@ theorem minv_getDifference {O log keys org start} (hO : GoodOrders O) (hS : Scn 
     have h2 : MInv O log keys org start ((m.seqOp O 0 .clear).seqOp O 1 .clear) :=
       minv_clear hO hS (minv_clear hO hS h 0) 1
     generalize hm2 : (m.seqOp O 0 .clear).seqOp O 1 .clear = m2 at *
-    have hst : (m2.w.commonDiff m2.pts.state m2.qts.state).1.log = m2.w.log ∧
-        (m2.w.commonDiff m2.pts.state m2.qts.state).1.p0 = m2.w.p0 ∧
-        (m2.w.commonDiff m2.pts.state m2.qts.state).1.q0 = m2.w.q0 ∧
-        (m2.w.commonDiff m2.pts.state m2.qts.state).1.c0 = m2.w.c0 := by
-      exact commonDiff_static m2.w m2.pts.state m2.qts.state
     have h3 : MInv O log keys org start
         (({ m2 with w := (m2.w.commonDiff m2.pts.state m2.qts.state).1 } : Mgr).emit [.apiDiff m2.pts.state m2.qts.state]) :=
-      minv_emit_neutral (minv_world h2 _ hst.1 hst.2.1 hst.2.2.1 hst.2.2.2) _ (neutral_api log keys _ _)
+      minv_emit_neutral (minv_world h2 _ (commonDiff_static m2.w m2.pts.state m2.qts.state)) _ (neutral_api log keys _ _)
     generalize hm3 : (({ m2 with w := (m2.w.commonDiff m2.pts.state m2.qts.state).1 } : Mgr).emit
         [.apiDiff m2.pts.state m2.qts.state]) = m3 at *
     have hp3 : m3.pts = m2.pts := by rw [← hm3]; rfl
@@ -115,12 +110,9 @@ theorem minv_chGetDifference {O log keys org start} (hO : GoodOrders O) (hS : Sc
     | some b =>
       simp only [hb]
       have hk : 2 + c ∈ keys := key_of_box h1 _ b hb
-      have hst : (m1.w.chanDiff c b.state).1.log = m1.w.log ∧ (m1.w.chanDiff c b.state).1.p0 = m1.w.p0 ∧
-          (m1.w.chanDiff c b.state).1.q0 = m1.w.q0 ∧ (m1.w.chanDiff c b.state).1.c0 = m1.w.c0 := by
-        exact chanDiff_static m1.w c b.state
       have h2 : MInv O log keys org start
           (({ m1 with w := (m1.w.chanDiff c b.state).1 } : Mgr).emit [.apiChDiff c b.state]) :=
-        minv_emit_neutral (minv_world h1 _ hst.1 hst.2.1 hst.2.2.1 hst.2.2.2) _ (neutral_apiCh log keys _ _)
+        minv_emit_neutral (minv_world h1 _ (chanDiff_static m1.w c b.state)) _ (neutral_apiCh log keys _ _)
       generalize hm2 : (({ m1 with w := (m1.w.chanDiff c b.state).1 } : Mgr).emit [.apiChDiff c b.state]) = m2 at *
       have hb2 : m2.getBox (2 + c) = some b := by rw [← hm2]; exact hb
       have hlog : m1.w.log = log := h1.coh.hlog
@@ -153,7 +145,7 @@ theorem minv_chGetDifference {O log keys org start} (hO : GoodOrders O) (hS : Sc
           rw [hlog] at hemp
           simp only [wfOp, List.all_nil, Bool.true_and, Bool.or_eq_true, Bool.and_eq_true, decide_eq_true_eq,
             List.all_eq_true, Bool.not_eq_true']
-          left; left; right
+          left; left; left; right
           refine ⟨trivial, ?_⟩
           intro e he
           by_cases hz : e.count = 0
@@ -185,7 +177,7 @@ theorem minv_chGetDifference {O log keys org start} (hO : GoodOrders O) (hS : Sc
              else m2) := by
           split
           · refine ⟨⟨h2.coh.hlog, h2.coh.box, h2.coh.tr, h2.coh.wf, h2.coh.pend, h2.coh.nobox⟩, h2.p0, h2.q0, h2.c0,
-              h2.queues, ?_⟩
+              h2.queues, ?_, h2.startP, h2.startC⟩
             intro cont hc e he
             show e ∈ log
             have hc' : cont ∈ m2.internal ++ [(part.filter (·.kind == .chother) ++ m1.w.extrasOf (2 + c)).filter
@@ -216,7 +208,7 @@ theorem minv_chGetDifference {O log keys org start} (hO : GoodOrders O) (hS : Sc
             have hbb : b' = b := (Option.some.inj hb').symm
             subst hbb
             simp only [wfOp, Bool.and_eq_true, Bool.or_eq_true, List.all_eq_true, decide_eq_true_eq, Bool.not_eq_true']
-            refine ⟨fun e he => honest.2.1 e he, Or.inl (Or.inl (Or.inl ⟨trivial, ?_⟩))⟩
+            refine ⟨fun e he => honest.2.1 e he, Or.inl (Or.inl (Or.inl (Or.inl ⟨trivial, ?_⟩)))⟩
             intro e he
             by_cases hr : b'.state < e.pos ∧ e.pos ≤
                 (if part.isEmpty then max b'.state (m1.w.serverChan c) else lastPos b'.state (fun _ => true) part)
